@@ -75,7 +75,11 @@ Atoms == { A1, Rel(<<Step("child", T_name("", <<"t","e","x","t">>))>>), Abs(<<>>
            Abs(<<DoS, Step("attribute", T_any), Step("parent", T_node), Step("child", T_any)>>),
            Rel(<<Step("attribute", T_any), Step("parent", T_node), DoS, Step("child", T_name("", <<"a">>))>>),
            Abs(<<DoS, Step("namespace", T_any), Step("parent", T_node), Step("child", T_name("", <<"a">>))>>),
-           Rel(<<Step("attribute", T_any), Self, Step("parent", T_node), Step("child", T_any), Step("attribute", T_any)>>) }
+           Rel(<<Step("attribute", T_any), Self, Step("parent", T_node), Step("child", T_any), Step("attribute", T_any)>>),
+           \* (E)//P is (E)/descendant-or-self::node()/P also directly after a filter expression: (/a)//a, $v//text, (a|a)[1]//*
+           Filter(Abs(<<Step("child", T_name("", <<"a">>))>>), <<>>, <<DoS, Step("child", T_name("", <<"a">>))>>),
+           Filter(Var("", <<"v">>), <<>>, <<DoS, Step("child", T_text)>>),
+           Filter(Bin("union", A1, A1), <<IntE(1)>>, <<DoS, Step("child", T_any)>>) }
 BinOps == {"or", "and", "eq", "ne", "lt", "le", "gt", "ge", "add", "sub", "mul", "div", "mod", "union"}
 UnionOK(e) == e.op \in {"path", "filter", "var", "call", "union"}
 Depth1 == Atoms \cup {NegE(x) : x \in Atoms} \cup {Bin(o, x, y) : o \in BinOps, x \in {A1, IntE(1), Var("", <<"v">>)}, y \in {A1, IntE(1), Var("", <<"v">>)}}
